@@ -19,4 +19,17 @@ for prop in C01 C06 C09 C15 C16 C20; do
         echo "$prop: DIGESTS DIFFER"; diff $tmp/a.$prop $tmp/b.$prop | head -5; rc=1
     fi
 done
+# the whole search including the coverage-feedback generations, as one digest
+M=$((N*2))
+for prop in C02 C07 C15; do
+    $bin searchdigest $prop $M 16 > $tmp/sa.$prop &
+    $bin searchdigest $prop $M 1  > $tmp/sb.$prop &
+    $bin searchdigest $prop $M 7  > $tmp/sc.$prop &
+    wait
+    if cmp -s $tmp/sa.$prop $tmp/sb.$prop && cmp -s $tmp/sa.$prop $tmp/sc.$prop; then
+        echo "$prop: search of $M scenarios in 5 generations x 3 processes (16/1/7 threads): identical ($(cut -c1-16 $tmp/sa.$prop))"
+    else
+        echo "$prop: SEARCH DIGESTS DIFFER"; cat $tmp/sa.$prop $tmp/sb.$prop | cut -c1-200; rc=1
+    fi
+done
 exit $rc
